@@ -3,6 +3,10 @@
 import json, subprocess
 GOENV = "GOFLAGS=-mod=mod GOPROXY=off GOSUMDB=off GOTOOLCHAIN=local CGO_ENABLED=1"
 CHECKS = {
+ "C17": dict(engine="E1 layouts", level="exploration", design="DESIGN.md 4/C17",
+   text="(1) generated programs with line and scope probes under canonical, re-spelled and wild layouts against the reference interpreter: reported lines lie in the innermost executing statement's token span, locals/upvalues are exactly the declared-and-active named variables with current values and setlocal/setupvalue change exactly that variable; (2) a second layout derived by inserting whole blank/comment lines: every reported line number maps by the known shift",
+   note="(1) trusts verif/luaref's statement spans and scope model; (2) is metamorphic and needs no reference",
+   technique="property-based differential and metamorphic testing (rapid)"),
  "C12": dict(engine="E1 + E4 configuration sweep and models", level="exploration", design="DESIGN.md 4/C12",
    text="generated programs compared across drawn Options vectors against default options; depth/arity-parameterised programs swept across each configured limit with overflow/recover cycles and a post-check in the same state; state-machine histories on both call-frame stacks and the registry (verif hooks) against slice models",
    note="gopher-lua under default options is the baseline of (a); (b) uses programs with known values; (c) trusts the slice models and the documented capacity rule",
